@@ -772,7 +772,13 @@ class C10(PropertyCheck):
         ncon = rng.choice([1, 2, 3])
         cons = []
         for i in range(ncon):
-            idx = sorted(rng.sample(range(len(monos)), rng.choice([1, 1, 2, min(3, len(monos))][:len(monos)] or [1])))
+            # any number of the formula's terms, up to all of them (a contrast with as many columns as the design),
+            # in the formula's order or in another order
+            L_ = len(monos)
+            k_ = L_ if rng.random() < 0.25 else rng.choice([1, 1, 2, min(3, L_)][:L_] or [1])
+            idx = rng.sample(range(L_), k_)
+            if rng.random() < 0.5:
+                idx = sorted(idx)
             cons.append({"name": f"c{i}", "idx": idx, "bare": len(idx) == 1 and rng.random() < 0.5})
         outside = [m for m in pool if m not in monos and m != ["1", []]]
         if outside and rng.random() < 0.35:
